@@ -48,8 +48,7 @@ class blank_line_below_line_ending_with_token(blank_line.Rule):
         elif self.style == "no_blank_line":
             _analyze_no_blank_line(self, lToi, self.lAllowTokens)
         elif self.style == "require_blank_line_unless_pragma":
-            self.lAllowTokens.append(token.pragma.pragma)
-            _analyze_require_blank_line(self, lToi, self.lAllowTokens)
+            _analyze_require_blank_line(self, lToi, self.lAllowTokens + [token.pragma.pragma])
 
     def _fix_violation(self, oViolation):
         lTokens = oViolation.get_tokens()
